@@ -329,6 +329,9 @@ let run_sched kvs ikvs =
         | f :: r -> let o = int_of_n f.pf_hdr.h_opc in
           if seen then (o = 9 || o = 10) && ac true r else ac (o = 8) r in
       if not (ac false fs) then "violation:frame-after-close" else
+      (* every masked frame draws a fresh key (crypto/rand): no key may occur twice on a connection, however the writers interleave *)
+      let keys_l = List.filter_map (fun f -> if f.pf_hdr.h_masked then Some f.pf_hdr.h_key else None) fs in
+      if List.length (List.sort_uniq compare keys_l) <> List.length keys_l then "violation:mask-key-repeated" else
       let msgs = ref_messages inflate_oracle takeover [] (ref_events fs) in
       let last_seq = Hashtbl.create 8 in
       let seen = Hashtbl.create 64 in
@@ -594,6 +597,14 @@ let run_netconn kvs _ =
     let (o2, s2) = nc_read (nat_of_int 9) s1 (nat_of_int 16) in
     let (o3, _) = nc_read (nat_of_int 9) s2 (nat_of_int 16) in
     Printf.sprintf "first=%s second=%s third=%s" (nres_str o1) (nres_str o2) (match o3 with NBlock -> "err" | _ -> nres_str o3)
+  | "drop" ->
+    (* one message, then the connection ends without a Close frame: the model has no further input — every later read is an error *)
+    let st0 = nc_init typ [NMsg (typ, bytes_of_string "abc")] in
+    let (o1, s1) = nc_read (nat_of_int 9) st0 (nat_of_int 16) in
+    let (o2, s2) = nc_read (nat_of_int 9) s1 (nat_of_int 16) in
+    let (o3, _) = nc_read (nat_of_int 9) s2 (nat_of_int 16) in
+    let e o = match o with NBlock -> "err" | _ -> nres_str o in
+    Printf.sprintf "first=%s second=%s third=%s" (nres_str o1) (e o2) (e o3)
   | "wrongtype" ->
     let other = n_of_int (3 - int_of_n typ) in
     let (o1, s1) = nc_read (nat_of_int 9) (nc_init typ [NMsg (other, bytes_of_string "abc")]) (nat_of_int 16) in
@@ -606,11 +617,11 @@ let run_netconn kvs _ =
        let (s1, _) = dl_step s0 DCallStart in
        let (s2, _) = dl_step s1 DSet in
        let (s3, _) = dl_step s2 DFire in
-       Printf.sprintf "call=%b connclosed=%b" s3.dl_cancelled s3.dl_cancelled
+       Printf.sprintf "call=%b connclosed=%b eof=false" s3.dl_cancelled s3.dl_cancelled
      | "active" ->
        let (s1, _) = dl_step s0 DCallStart in
        let (s2, _) = dl_step s1 DFire in
-       Printf.sprintf "call=%b connclosed=%b" s2.dl_cancelled s2.dl_cancelled
+       Printf.sprintf "call=%b connclosed=%b eof=false" s2.dl_cancelled s2.dl_cancelled
      | _ ->
        let (s1, _) = dl_step s0 DSet in
        let (s2, _) = dl_step s1 DFire in
